@@ -54,6 +54,7 @@ def c18_universes():
     out["c18-prefix-4-q6"] = ("prefix", consts(MaxP=4, PType=2, CheckFits=False, AllowReject=True, PoolS="C18S6", PoolP="C18Iri6", PoolO="C18O6", PoolG="C18Iri6"))
     out["c18-datatype-4-q6"] = ("datatype", consts(MaxD=4, PType=2, CheckFits=False, AllowReject=True, PoolS="C18Dt6", PoolP="C18Dt6", PoolO="C18Dt6", PoolG="C18Dt6"))
     out["c18-name-8"] = ("name", consts(MaxN=8, MaxP=1, CheckFits=False, AllowReject=True, PoolS="C18NmS", PoolP="C18NmP", PoolO="C18NmO"))
+    out["c18-name-8npx"] = ("name", consts(MaxN=8, MaxP=0, CheckFits=False, AllowReject=True, PoolS="C18NxS", PoolP="C18NxP", PoolO="C18NxO"))
     out["c18-name-8np"] = ("name", consts(MaxN=8, MaxP=0, CheckFits=False, AllowReject=True, PoolS="C18NmS", PoolP="C18NmP", PoolO="C18NmO"))
     return out
 
